@@ -86,6 +86,7 @@ CHECKS['C09'] = {
 }
 
 CHECKS['C08'] = {
+    'grid': {'sets': ['c08'], 'bound': 'every sequence of up to 4 lines over a 5-line pool x 6 plain and 5 aggregate statements, REAL pool with 0.0 / -0.0 / 1 / 1.0 / 1.5 up to 3 lines, recurrence after 500 / 700 lines, integers next to 2^53 and at the 64-bit ends (about 3750 cases)'},
     'verus_units': ['select', 'aggresult', 'converter'],
     'kani': {
         'sets': ['value_order'],
@@ -104,6 +105,7 @@ CHECKS['C08'] = {
 }
 
 CHECKS['C07'] = {
+    'grid': {'sets': ['c07'], 'bound': 'every sequence of up to 3 admitted lines over a 4-line pool (also cut into two files) x 8 plain/DISTINCT, 4 aggregate and 4 join statements x every n in 0..rows+2 (about 1070 cases, each with all n)'},
     'verus_units': ['engine', 'executor', 'converter', 'aggresult'],
     'clause_prefixes': ['c07', 'out.'],
     'technique': 'contract-based deductive verification (Verus): ExecutionEngine::update_limit / reached_limit / execute extracted from /repo; prefix lemma over the update_limit contract',
@@ -115,6 +117,7 @@ CHECKS['C07'] = {
     'unproved': ['LIMIT accounting is proved for the rows a join returns, the rows themselves come from execute_join (unit join)'],
 }
 CHECKS['C06'] = {
+    'grid': {'sets': ['c06'], 'bound': '5 table definitions (plain, NOT NULL, BOOLEAN, DEFAULT + NOT NULL with two patterns, join) x every sequence of up to 2 admitted lines x one non-admitted line at each position or all kinds at every position (also inside the joined file) x 5-16 statements each; 16 (definition, line) admission pairs (about 5300 cases)'},
     'verus_units': ['engine', 'extract'],
     'clause_prefixes': ['c06'],
     'technique': 'contract-based deductive verification (Verus): frame postconditions on ExecutionEngine::execute_select / execute_aggregate / execute_aggregate_update extracted from /repo',
